@@ -200,6 +200,7 @@ impl Monitor for C03 {
             ("sweep", tier.pick(60000, 6000000)),
             ("ethertype", tier.pick(65_536, 65_536 * 4)),
             ("iplevel", tier.pick(1500000, 150000000)),
+            ("corpus", tier.pick(400_000, 8_000_000)),
         ]
     }
 
@@ -261,6 +262,16 @@ impl Monitor for C03 {
                 let case = gen::gen_case(rng, &o);
                 self.ip_level(rep, &case.bytes, &case.desc);
             }
+            "corpus" => match gen::corpus::case(idx, rng) {
+                Some(case) => {
+                    rep.count("corpus_cases");
+                    self.whole(rep, &case);
+                    if case.start == Start::Ip {
+                        self.ip_level(rep, &case.bytes, &case.desc);
+                    }
+                }
+                None => rep.selfcheck_fail("corpus file missing".into()),
+            },
             _ => {}
         }
     }
